@@ -252,6 +252,7 @@ func (c *codegen) assignElem(lhs ast.Expr, ix *ast.IndexExpr, inner []string, rh
 		c.fail(at, "element assignment on %s", st)
 	}
 	c.checkElemWrite(root, at)
+	c.checkAliasWrite(v, p, at, "element assignment to")
 	t := elemT
 	var q []string
 	for _, f := range inner {
@@ -316,8 +317,8 @@ func (c *codegen) checkSig3(fd *ast.FuncDecl, sig *fnSig) {
 	// the pointer would be lost
 	if fd.Type.Params != nil {
 		for _, f := range fd.Type.Params.List {
-			if _, ptr := f.Type.(*ast.StarExpr); !ptr {
-				continue
+			if _, ptr := f.Type.(*ast.StarExpr); !ptr || c.phase5 {
+				continue // fifth part: a pointer parameter that is written is an out parameter (code_iface.go)
 			}
 			names := map[string]bool{}
 			for _, n := range f.Names {
